@@ -343,25 +343,15 @@ def _month_agree_tabulate(ctx, py_region: set, rs_region: set) -> bool | None:
     return diff == 0
 
 
-def _py_diff_tabulate(ctx) -> bool | None:
-    """DIFF.tabulated: the pure-Python `precise_diff` run by the checker's interpreter on standard-library values - every ordered
-    pair from a list of naive datetimes (month ends of every length, leap days, first / last instants of days, times of day
-    that force every borrow), the same for plain dates, and aware pairs with fixed offsets (same offset; different offsets,
-    which are compared as the same instants in UTC).  For a <= b the components must be non-negative and canonical (0-11
-    months, 0-30 days, 0-23 h, 0-59 min/s, < 10^6 us) and lead back to b when added to a - month shift with the day clamped to
-    the target month, then days and the time - ; the reversed pair must give the same components negated; total_days (naive and date pairs) is the
-    difference of the calendar dates."""
+def _diff_pairs(ctx):
+    """the ordered pairs of DIFF.tabulated / RSDIFF.tabulated: (label, a, b, a as a naive UTC value, b as a naive UTC value)"""
     import calendar
     import datetime as _dt
-    from ..rules import minieval
-    m = pmod("_helpers")
-    fn = m.func("precise_diff")
     D = _dt.datetime
     base = [D(2020, 1, 31, 0, 0, 0), D(2020, 2, 29, 23, 59, 59, 999999), D(2020, 3, 1, 0, 0, 0), D(2020, 3, 31, 12, 30, 15, 500000), D(2021, 1, 31, 23, 0, 0),
             D(2021, 2, 28, 0, 0, 0, 1), D(2021, 2, 28, 23, 59, 59), D(2021, 3, 30, 6, 0, 0), D(2021, 3, 31, 5, 59, 59, 999999), D(2021, 4, 30, 12, 0, 0),
             D(2021, 5, 31, 12, 0, 0, 1), D(2021, 12, 31, 23, 59, 59, 999999), D(2022, 1, 1, 0, 0, 0), D(2019, 12, 31, 12, 0, 0), D(2024, 2, 29, 12, 0, 0),
             D(2025, 2, 28, 12, 0, 0), D(2023, 8, 31, 0, 0, 1), D(2023, 9, 30, 0, 0, 0), D(2000, 2, 29, 1, 2, 3, 4), D(1999, 11, 30, 4, 3, 2, 1)]
-
     if ctx.tier == "thorough":
         # every month end, the days around it and mid-month days of two years (one leap), at four times of day
         extra = []
@@ -371,11 +361,68 @@ def _py_diff_tabulate(ctx) -> bool | None:
                 for dd, tt in ((1, (0, 0, 0, 0)), (15, (12, 0, 0, 0)), (last - 1, (23, 59, 59, 999999)), (last, (6, 30, 0, 1)), (last, (23, 59, 59, 999999)), (28, (0, 0, 0, 1))):
                     extra.append(D(y, mo, dd, *tt))
         base = base + extra
+    out = []
+    for i, a in enumerate(base):
+        for b in base:
+            if a < b:
+                out.append((f"precise_diff({a.isoformat(' ')}, {b.isoformat(' ')})", a, b, a, b))
+                if i % 3 == 0 and a.date() < b.date():
+                    out.append((f"precise_diff({a.date()}, {b.date()})", a.date(), b.date(), a.date(), b.date()))
+    tz0, tz5, tzm3 = _dt.timezone(_dt.timedelta(0)), _dt.timezone(_dt.timedelta(hours=5, minutes=30)), _dt.timezone(_dt.timedelta(hours=-3))
+    for a in base[::3]:
+        for b in base[1::4]:
+            for ta, tb in ((tz5, tz5), (tz0, tz5), (tz5, tzm3), (tzm3, tz0)):
+                aa, bb = a.replace(tzinfo=ta), b.replace(tzinfo=tb)
+                if not aa < bb:
+                    continue
+                au, bu = (aa - aa.utcoffset()).replace(tzinfo=None), (bb - bb.utcoffset()).replace(tzinfo=None)
+                out.append((f"precise_diff({aa.isoformat(' ')}, {bb.isoformat(' ')})", aa, bb, au, bu))
+    return out
+
+
+def _diff_judge(pairs, run_pd) -> tuple[list[str], int]:
+    """For a <= b the components must be non-negative and canonical and lead back to b when added to a (month shift with the day clamped
+    to the target month, then days and the time); the reversed pair gives the same components negated; total_days (naive and date pairs)
+    is the difference of the calendar dates."""
+    import calendar
+    import datetime as _dt
+    bad, n = [], 0
 
     def cal(w, y, mo, d, h=0, mi=0, s_=0, us=0):
         i = w.year * 12 + w.month - 1 + y * 12 + mo
         yy, mm = divmod(i, 12)
         return w.replace(year=yy, month=mm + 1, day=min(w.day, calendar.monthrange(yy, mm + 1)[1])) + _dt.timedelta(days=d, hours=h, minutes=mi, seconds=s_, microseconds=us)
+    for label, a, b, a_utc, b_utc in pairs:
+        n += 1
+        y, mo, d, h, mi, s_, us, td = run_pd(a, b)
+        if not (0 <= mo <= 11 and 0 <= d <= 30 and 0 <= h <= 23 and 0 <= mi <= 59 and 0 <= s_ <= 59 and 0 <= us < 10**6 and y >= 0):
+            bad.append(f"{label}: components {(y, mo, d, h, mi, s_, us)} are not canonical")
+            continue
+        is_dt = isinstance(a_utc, _dt.datetime)
+        back = cal(a_utc if is_dt else _dt.datetime.combine(a_utc, _dt.time()), y, mo, d, h, mi, s_, us)
+        tgt = b_utc if is_dt else _dt.datetime.combine(b_utc, _dt.time())
+        if back != tgt:
+            bad.append(f"{label}: {(y, mo, d, h, mi, s_, us)} added to the start gives {back.isoformat(' ')}, not the end {tgt.isoformat(' ')}")
+            continue
+        da, db = (a_utc.date(), b_utc.date()) if is_dt else (a_utc, b_utc)
+        if getattr(a, "tzinfo", None) is None and td != (db - da).days:      # aware pairs: total_days is not part of the property's statement
+            bad.append(f"{label}: total_days {td} (expected {(db - da).days})")
+            continue
+        r = run_pd(b, a)
+        if tuple(r) != tuple(-v for v in (y, mo, d, h, mi, s_, us, td)):
+            bad.append(f"{label}: the reversed pair gives {tuple(r)}, not the components negated")
+    return bad, n
+
+
+def _py_diff_tabulate(ctx) -> bool | None:
+    """DIFF.tabulated: the pure-Python `precise_diff` run by the checker's interpreter on standard-library values - every ordered
+    pair from a list of naive datetimes (month ends of every length, leap days, first / last instants of days, times of day
+    that force every borrow), the same for plain dates, and aware pairs with fixed offsets (same offset; different offsets,
+    which are compared as the same instants in UTC); judged by _diff_judge."""
+    import datetime as _dt
+    from ..rules import minieval
+    m = pmod("_helpers")
+    fn = m.func("precise_diff")
     try:
         consts = minieval.module_consts(m)
         funcs = {st.name: st for st in m.top() if isinstance(st, ast.FunctionDef)}
@@ -387,44 +434,7 @@ def _py_diff_tabulate(ctx) -> bool | None:
             if not isinstance(r, minieval.Stub) or not hasattr(r, "_pd") or len(r._pd) != 8 or r._kw:
                 raise core.Unsupported("precise_diff does not return PreciseDiff(8 positional values)")
             return r._pd
-        bad, n = [], 0
-
-        def judge(label, a, b, a_utc, b_utc):
-            """a <= b as compared by the function; a_utc/b_utc: the naive values the decomposition is about"""
-            nonlocal n
-            n += 1
-            y, mo, d, h, mi, s_, us, td = run_pd(a, b)
-            if not (0 <= mo <= 11 and 0 <= d <= 30 and 0 <= h <= 23 and 0 <= mi <= 59 and 0 <= s_ <= 59 and 0 <= us < 10**6 and y >= 0):
-                bad.append(f"{label}: components {(y, mo, d, h, mi, s_, us)} are not canonical")
-                return
-            is_dt = isinstance(a_utc, _dt.datetime)
-            back = cal(a_utc if is_dt else _dt.datetime.combine(a_utc, _dt.time()), y, mo, d, h, mi, s_, us)
-            tgt = b_utc if is_dt else _dt.datetime.combine(b_utc, _dt.time())
-            if back != tgt:
-                bad.append(f"{label}: {(y, mo, d, h, mi, s_, us)} added to the start gives {back.isoformat(' ')}, not the end {tgt.isoformat(' ')}")
-                return
-            da, db = (a_utc.date(), b_utc.date()) if is_dt else (a_utc, b_utc)
-            if getattr(a, "tzinfo", None) is None and td != (db - da).days:      # aware pairs: total_days is not part of the property's statement
-                bad.append(f"{label}: total_days {td} (expected {(db - da).days})")
-                return
-            r = run_pd(b, a)
-            if tuple(r) != tuple(-v for v in (y, mo, d, h, mi, s_, us, td)):
-                bad.append(f"{label}: the reversed pair gives {tuple(r)}, not the components negated")
-        for i, a in enumerate(base):
-            for b in base:
-                if a < b:
-                    judge(f"precise_diff({a.isoformat(' ')}, {b.isoformat(' ')})", a, b, a, b)
-                    if i % 3 == 0:
-                        judge(f"precise_diff({a.date()}, {b.date()})", a.date(), b.date(), a.date(), b.date()) if a.date() < b.date() else None
-        tz0, tz5, tzm3 = _dt.timezone(_dt.timedelta(0)), _dt.timezone(_dt.timedelta(hours=5, minutes=30)), _dt.timezone(_dt.timedelta(hours=-3))
-        for a in base[::3]:
-            for b in base[1::4]:
-                for ta, tb in ((tz5, tz5), (tz0, tz5), (tz5, tzm3), (tzm3, tz0)):
-                    aa, bb = a.replace(tzinfo=ta), b.replace(tzinfo=tb)
-                    if not aa < bb:
-                        continue
-                    au, bu = (aa - aa.utcoffset()).replace(tzinfo=None), (bb - bb.utcoffset()).replace(tzinfo=None)
-                    judge(f"precise_diff({aa.isoformat(' ')}, {bb.isoformat(' ')})", aa, bb, au, bu)
+        bad, n = _diff_judge(_diff_pairs(ctx), run_pd)
     except (core.Unsupported, KeyError, TypeError, AttributeError, IndexError, RecursionError, ValueError, minieval.Raised) as e:
         ctx.unverified("DIFF.tabulated", "py:precise_diff", f"outside the checker's interpreter: {type(e).__name__}: {e}", m.loc(fn))
         return None
@@ -432,6 +442,79 @@ def _py_diff_tabulate(ctx) -> bool | None:
            "canonical non-negative components that lead back to the end point, negated for the reversed pair, total_days the difference of the dates"), m.loc(fn))
     if not bad:
         ctx.established(("BORROW", "SIGN", "UTCSHIFT.shift", "UTCSHIFT.when", "MONTHBRANCH.rebuild"), "py:", "DIFF.tabulated")
+    return not bad
+
+
+def pyo3_object_models() -> list:
+    """what the dynamic pyo3 calls of rust/src/python/helpers.rs stand for when the MIR evaluator runs them on standard-library values:
+    downcast / is_type_of_bound are isinstance, getattr / hasattr / call_method1 / extract the Python operations of the same name, the
+    PyDateAccess / PyTimeAccess / PyDeltaAccess getters the attributes"""
+    import datetime as _dt
+    from ..mirexec import Enum, Opaque, Ref
+
+    def deref(r):
+        return r.get() if isinstance(r, Ref) else r
+
+    def ok(v):
+        return Enum("Ok", [v])
+
+    def downcast(cls):
+        def f(r):
+            o = deref(r)
+            return ok(r if isinstance(r, Ref) else Ref([o], 0)) if isinstance(o, cls) else Enum("Err", [Opaque()])
+        return f
+    return [(r"downcast::<PyDateTime>$", downcast(_dt.datetime)), (r"downcast::<PyDate>$", downcast(_dt.date)), (r"downcast::<PyDelta>$", downcast(_dt.timedelta)),
+            (r"downcast::<PyString>$", downcast(str)),
+            (r"PyDateAccess>::get_year$", lambda r: deref(r).year), (r"PyDateAccess>::get_month$", lambda r: deref(r).month), (r"PyDateAccess>::get_day$", lambda r: deref(r).day),
+            (r"PyTimeAccess>::get_hour$", lambda r: deref(r).hour), (r"PyTimeAccess>::get_minute$", lambda r: deref(r).minute), (r"PyTimeAccess>::get_second$", lambda r: deref(r).second),
+            (r"PyTimeAccess>::get_microsecond$", lambda r: deref(r).microsecond),
+            (r"PyDeltaAccess>::get_days$", lambda r: deref(r).days), (r"PyDeltaAccess>::get_seconds$", lambda r: deref(r).seconds), (r"PyDeltaAccess>::get_microseconds$", lambda r: deref(r).microseconds),
+            (r"<PyDateTime as PyTypeInfo>::is_type_of_bound$", lambda r: isinstance(deref(r), _dt.datetime)),
+            (r"<PyDate as PyTypeInfo>::is_type_of_bound$", lambda r: isinstance(deref(r), _dt.date)),
+            (r"PyAnyMethods<'_>>::getattr::<", lambda r, name: ok(getattr(deref(r), name)) if hasattr(deref(r), name) else Enum("Err", [Opaque()])),
+            (r"PyAnyMethods<'_>>::hasattr::<", lambda r, name: ok(hasattr(deref(r), name))),
+            (r"PyAnyMethods<'_>>::is_none$", lambda r: deref(r) is None),
+            (r"PyAnyMethods<'_>>::call_method1::<", lambda r, name, args: ok(getattr(deref(r), name)(*[deref(x) for x in args]))),
+            (r"::extract::<.*String>$", lambda r: ok(str(deref(r)))),
+            (r"String::new$", lambda: ""), (r"String::as_str$", lambda r: deref(r)), (r"<&str as PartialEq>::eq$", lambda a, b: deref(deref(a)) == deref(deref(b))),
+            (r"impl str>::is_empty$", lambda s_: deref(s_) == "")]
+
+
+def _rs_diff_tabulate(ctx, mir) -> bool | None:
+    """RSDIFF.tabulated: the compiled `precise_diff` decided on values: the MIR of python::helpers::precise_diff and of what it reaches
+    in the crate (get_tz_name, get_offset, DateTimeInfo::normalize_date and its comparison, helpers::day_number / is_leap, the month table)
+    is evaluated by the checker's MIR evaluator (pvs/mirexec.py) on the pairs of DIFF.tabulated - standard-library dates and datetimes,
+    read through models of the pyo3 accessors - and judged like the Python helper."""
+    import datetime as _dt
+    from .. import mirexec
+    rel = "rust/src/python/helpers.rs"
+    if mir is None:
+        return None
+    try:
+        sf = mirsym.struct_fields_from_source((core.REPO / rel).read_text())
+        f = mir.fn("precise_diff")
+        ext = pyo3_object_models()
+        names = ("years", "months", "days", "hours", "minutes", "seconds", "microseconds", "total_days")
+
+        def run_pd(a, b):
+            M = mirexec.Machine(mir, sf)
+            M.ext = ext
+            r = M.run(f, [mirexec.Ref([a], 0), mirexec.Ref([b], 0)])
+            if not isinstance(r, mirexec.Enum) or r.variant != "Ok" or not isinstance(r.payload[0], mirexec.Struct) or not set(names) <= set(r.payload[0].names):
+                raise core.Unsupported(f"precise_diff returns {r!r}")
+            return tuple(r.payload[0].get(k) for k in names)
+        pairs = _diff_pairs(ctx)
+        if ctx.tier != "thorough":
+            pairs = pairs[::2]
+        bad, n = _diff_judge(pairs, run_pd)
+    except mirexec.Panic as e:
+        ctx.ob("RSDIFF.tabulated", "rs:precise_diff", False, f"the compiled helper panics: {e}", rel)
+        return False
+    except (core.Unsupported, core.AnchorMissing, KeyError, TypeError, AttributeError, IndexError, RecursionError, ValueError) as e:
+        ctx.unverified("RSDIFF.tabulated", "rs:precise_diff", f"outside the MIR evaluator: {type(e).__name__}: {str(e)[:200]}", rel)
+        return None
+    ctx.ob("RSDIFF.tabulated", "rs:precise_diff", not bad, f"{n} ordered pairs evaluated on the MIR of the compiled helper: " + (f"wrong: {bad[:3]}" if bad else
+           "canonical non-negative components that lead back to the end point, negated for the reversed pair, total_days the difference of the dates"), rel)
     return not bad
 
 
@@ -1011,6 +1094,7 @@ def run(ctx) -> None:
     except mirfront.MirUnavailable as e:
         ctx.unverified("RUST", "precise_diff", f"MIR unavailable, Rust clauses not checked: {e}", "rust/")
     if mir is not None:
+        ctx.step(_rs_diff_tabulate, ctx, mir)
         f = mir.fn("precise_diff")
         sf = mirsym.struct_fields_from_source((core.REPO / "rust/src/python/helpers.rs").read_text())
         rc = rs_chain(ctx, f)
